@@ -67,8 +67,17 @@ def check_accessors(chk, cfg, real, exp_cbs, key):
             probs.append(("epochs", eps, list(o.epochs)))
         metric = d.get("kind", "metric") == "metric"
         name = "m" if metric else "SigmaZ"
-        if list(o.names) != [name]:
-            probs.append(("names", [name], list(o.names)))
+        two = metric and trainrun.has_second(cfg, i + 1)
+        if sorted(o.names) != sorted([name] + (["a"] if two else [])):
+            probs.append(("names", [name] + (["a"] if two else []), list(o.names)))
+        if two:
+            # every value is filed under the name of the metric that produced it
+            want2 = [trainrun.second_value(e) for e in eps]
+            for how, arr in (("getattr", o.a), ("getitem", o["a"])):
+                if [float(x) for x in arr] != want2:
+                    probs.append((how, want2, [float(x) for x in arr]))
+            if exp and float(o.get_value("a")) != want2[-1]:
+                probs.append(("get_value()", want2[-1], float(o.get_value("a"))))
         if metric:
             for how, arr in (("getattr", getattr(o, name)), ("getitem", o[name])):
                 if [float(x) for x in arr] != vals:
@@ -79,6 +88,8 @@ def check_accessors(chk, cfg, real, exp_cbs, key):
             if exp and float(o.get_value(name)) != vals[-1]:
                 probs.append(("get_value()", vals[-1], float(o.get_value(name))))
             explast = {name: vals[-1]} if exp else {}
+            if two and exp:
+                explast["a"] = trainrun.second_value(eps[-1])
             if {k: float(v) for k, v in o.last.items()} != explast:
                 probs.append(("last", explast, dict(o.last)))
         else:
@@ -115,9 +126,20 @@ def check_csv(chk, cfg, real, all_recs, key):
             rows = list(csv.reader(fh))
         metric = d.get("kind", "metric") == "metric"
         header = ["epoch", "m"] if metric else ["epoch", "SigmaZ_mean", "SigmaZ_variance", "SigmaZ_std_error"]
+        two = metric and trainrun.has_second(cfg, i + 1)
         exp = all_recs[i]
-        ok = rows and rows[0] == header and len(rows) == 1 + len(exp)
-        if ok:
+        if two:
+            # columns are identified by their header; each value sits under the name of its metric
+            ok = rows and rows[0][0] == "epoch" and sorted(rows[0][1:]) == ["a", "m"] and len(rows) == 1 + len(exp)
+            if ok:
+                cm, ca = rows[0].index("m"), rows[0].index("a")
+                for r, e in zip(rows[1:], exp):
+                    if int(r[0]) != e[0] or float(r[cm]) != float(e[1]) or float(r[ca]) != trainrun.second_value(e[0]):
+                        ok = False
+            header = ["epoch", "m", "a"]
+        else:
+            ok = rows and rows[0] == header and len(rows) == 1 + len(exp)
+        if ok and not two:
             for r, e in zip(rows[1:], exp):
                 if int(r[0]) != e[0] or float(r[1]) != float(e[1]) or (not metric and float(r[2]) != float(e[2])):
                     ok = False
